@@ -83,7 +83,9 @@ func (i *AccessControlInterceptor) Intercept(
 		}
 	}
 
-	if i.namespaceAccess != nil &&
+	// Without a namespace allow-list there is nothing the walk could forbid; running it anyway would refuse a request
+	// merely because something in it (a history blob that cannot be decoded) cannot be inspected.
+	if i.namespaceAccess != nil && i.namespaceAccess.IsRestricted() &&
 		(strings.HasPrefix(info.FullMethod, api.WorkflowServicePrefix) || strings.HasPrefix(info.FullMethod, api.AdminServicePrefix)) {
 		allowed, err := isNamespaceAccessAllowed(i.logger, req, i.namespaceAccess)
 		if !allowed || err != nil {
